@@ -544,22 +544,37 @@ def _maps_like(c):
     return ckey(dict(c, proj=""))
 
 
-def run(ctx, only=None):
+_CASES = {}
+
+
+def _cases(ctx, tier):
+    """TLC run of one tier, cached within the process (a replay file holds several cases)."""
     from cuqiverif import tlc as _t
     from cuqiverif.core import MachineryError
-    tier = ctx.tier if only is None else "thorough"
-    res = ctx.tlc("Geometry", cfg="Geometry.%s.cfg" % tier, workers=16, timeout=2400, heap="8g")
-    ctx.model_must_hold(res, "Geometry")
-    maps = {ckey(k["c"]): k for k in res.cases if k["kind"] == "maps"}
-    convs = {}
-    for k in res.cases:
-        if k["kind"] == "conv":
-            convs.setdefault((ckey(k["c"]), k["rep"], k["origin"]), []).append(k)
-    _t.cleanup(res)
-    if not maps or not convs:
-        raise MachineryError("Geometry emitted no maps / conv cases")
+    if tier not in _CASES:
+        res = ctx.tlc("Geometry", cfg="Geometry.%s.cfg" % tier, workers=16, timeout=2400, heap="8g")
+        ctx.model_must_hold(res, "Geometry")
+        maps = {ckey(k["c"]): k for k in res.cases if k["kind"] == "maps"}
+        convs = {}
+        for k in res.cases:
+            if k["kind"] == "conv":
+                convs.setdefault((ckey(k["c"]), k["rep"], k["origin"]), []).append(k)
+        _t.cleanup(res)
+        if not maps or not convs:
+            raise MachineryError("Geometry emitted no maps / conv cases")
+        _CASES[tier] = (maps, convs)
+    return _CASES[tier]
+
+
+def run(ctx, only=None):
+    from cuqiverif.core import MachineryError
     if only is None:
+        maps, convs = _cases(ctx, ctx.tier)
         run_deviations(ctx)
+    else:
+        maps, convs = _cases(ctx, "quick")
+        if only not in maps:
+            maps, convs = _cases(ctx, "thorough")
     kinds = {}
     for key in sorted(maps):
         if only is not None and key != only:
